@@ -184,27 +184,36 @@ Print Assumptions c18_decimal_roundtrip.
 
 (* ======================================================================== round 2 *)
 
-(* "Once the saver thread has been synchronised the file reflects the most recent save."
-   The machine of SyncModel.v: thread M calls SavePreferences / Synchronize (program p), thread S is
-   the saver (SelectServer loop: swap the incoming callback list, run it in order); Synchronize and
-   CompleteSynchronization as in the code with fix 04 (flag + predicate loop, signal under the
-   mutex).  For EVERY program, initial directory and schedule - any interleaving of atomic steps of
-   the two threads and any number of spurious wake-ups of pthread_cond_wait anywhere - :
-   the saver never touches the mutex / condition variable / flag of a Synchronize that has returned
-   (hazard), and at every return of Synchronize (one synclog entry each: saves issued so far, saves
-   completed so far, directory) the completed saves are exactly the issued ones and the settings
-   file holds byte for byte the most recent one - so it loads as that store (c18_roundtrip).
-   A save is not atomic in the machine: S makes one system call per step, so schedules in which M
-   issues further SavePreferences (or starts Synchronize) while a save is part-way through are all
-   covered.  Safety only: that Synchronize eventually returns under a fair schedule is not proved
-   (Example c18_sync_not_vacuous shows a completing schedule). *)
+(* "Once the saver thread has been synchronised the file reflects the most recent save."  N callers.
+   The machine of SyncModel.v: a caller M runs a program of SavePreferences / Synchronize calls; the
+   saver S runs the SelectServer loop (swap the incoming callback list, run it in order, a save one
+   system call per step); and ANY NUMBER OF OTHER THREADS may at any point of the schedule queue a
+   save (CEnvSave) or call Synchronize themselves (CEnvSync: their marker uses their own stack
+   objects).  Every caller is M in its own instance with the others as environment, so the statement
+   holds for each of them.  Synchronize / CompleteSynchronization as in the code with fix 04.
+   For EVERY program, initial directory and schedule - any interleaving of atomic steps of M, S and
+   the other threads, any number of spurious wake-ups of pthread_cond_wait anywhere - :
+   the saver never touches the mutex / condition variable / flag of a Synchronize of M that has
+   returned (hazard), and at every return of M's Synchronize (one synclog entry each: the saves
+   queued by anybody before M's marker, the saves completed, the directory, the save in progress)
+   - every save queued before the call has completed (they are a prefix of the completed ones; more
+     may have completed: later saves of other threads);
+   - if no save is in progress the settings file holds byte for byte the last completed save, so it
+     loads as that store (c18_roundtrip) - the most recent save queued before the call, unless a
+     later one has already replaced it;
+   - if a later save of another thread is in progress the file holds the last completed one or
+     already that later one (never anything else).
+   Safety only: that Synchronize eventually returns under a fair schedule is not proved
+   (Examples below show completing schedules). *)
 Theorem c18_sync : forall (p : list mop) (d : fs) (sched : list choice),
   let s := run true sched (init p d) in
   hazard s = false /\
-  Forall (fun e => let '(iss, comp, dk) := e in
-                   comp = iss /\
-                   forall m, last_opt iss = Some m ->
-                     f_conf dk = Some (save_bytes m) /\ (sorted m -> map_ok m -> restart dk = m))
+  Forall (fun e => let '(queued_before, comp, dk, in_progress) := e in
+            (exists more, comp = queued_before ++ more) /\
+            (in_progress = [] -> forall m, last_opt comp = Some m ->
+               f_conf dk = Some (save_bytes m) /\ (sorted m -> map_ok m -> restart dk = m)) /\
+            (forall m', in_progress = [m'] ->
+               f_conf dk = lastconf (f_conf d) comp \/ f_conf dk = Some (save_bytes m')))
          (synclog s).
 Proof. exact sync_safe_loads. Qed.
 Print Assumptions c18_sync.
@@ -214,7 +223,7 @@ Example c18_sync_not_vacuous :
   let d0 := {| f_conf := None; f_tmp := None |} in
   let s := run true (old_sync_schedule ++ repeat CSaver 11 ++ repeat CMain 4)
                (init [MSave m; MSync] d0) in
-  exists dk, synclog s = [([m], [m], dk)] /\ f_conf dk = Some (save_bytes m) /\ mpc s = MIdle /\ prog s = [].
+  exists dk, synclog s = [([m], [m], dk, [])] /\ f_conf dk = Some (save_bytes m) /\ mpc s = MIdle /\ prog s = [].
 Proof. exact fixed_sync_completes. Qed.
 
 (* The schedule space includes a second SavePreferences overlapping a save in progress. *)
@@ -225,17 +234,34 @@ Example c18_sync_overlap_in_schedule_space :
   let s1 := run true [CMain; CSaver; CSaver; CSaver; CMain] (init [MSave a; MSave b; MSync] d0) in
   let s2 := run true (repeat CMain 3 ++ repeat CSaver 16 ++ repeat CMain 3) s1 in
   (exists rest, spc s1 = SSaving a rest /\ length rest = 3%nat /\ issued s1 = [a; b] /\ completed s1 = []) /\
-  exists dk, synclog s2 = [([a; b], [a; b], dk)] /\ f_conf dk = Some (save_bytes b) /\ prog s2 = [].
+  exists dk, synclog s2 = [([a; b], [a; b], dk, [])] /\ f_conf dk = Some (save_bytes b) /\ prog s2 = [].
 Proof. exact overlap_schedule_example. Qed.
 
+(* ... and other callers: a foreign Synchronize queued before M's marker and a foreign save b queued
+   after it.  M returns when [a] is done; b is still pending then, or - on a slightly different
+   schedule - in progress with the file already replaced by b. *)
+Example c18_sync_other_callers :
+  let a := [([107], [49])] in
+  let b := [([107], [50])] in
+  let d0 := {| f_conf := None; f_tmp := None |} in
+  let s1 := run true ([CMain; CEnvSync; CMain; CMain; CEnvSave b; CMain] ++ repeat CSaver 12 ++ repeat CMain 3)
+                (init [MSave a; MSync] d0) in
+  (exists dk, synclog s1 = [([a], [a], dk, [])] /\ f_conf dk = Some (save_bytes a) /\
+              issued s1 = [a; b] /\ batch s1 = [ISave b]) /\
+  let s2 := run true ([CMain; CEnvSync; CMain; CMain; CEnvSave b; CMain] ++ repeat CSaver 12 ++
+                      [CMain; CMain] ++ repeat CSaver 5 ++ [CMain])
+                (init [MSave a; MSync] d0) in
+  exists dk, synclog s2 = [([a], [a], dk, [b])] /\ f_conf dk = Some (save_bytes b).
+Proof. exact other_callers_example. Qed.
+
 (* Before fix 04: one spurious wake-up and Synchronize returns with the save issued before it not
-   even started ([m] issued, [] completed, directory untouched); eight saver steps later (swap, the save's calls, its return) the saver
-   locks the destroyed mutex. *)
+   even started ([m] queued, [] completed, directory untouched); eight saver steps later (swap, the
+   save's calls, its return) the saver locks the destroyed mutex. *)
 Theorem c18_sync_refuted_before_fix :
   let m := [([107], [118])] in
   let d0 := {| f_conf := None; f_tmp := None |} in
   let s := run false old_sync_schedule (init [MSave m; MSync] d0) in
-  synclog s = [([m], [], d0)] /\ hazard s = false /\
+  synclog s = [([m], [], d0, [])] /\ hazard s = false /\
   hazard (run false (repeat CSaver 8) s) = true.
 Proof. exact old_sync_returns_early. Qed.
 Print Assumptions c18_sync_refuted_before_fix.
@@ -348,7 +374,7 @@ Proof. exact save_edit_load. Qed.
 Print Assumptions c18_reload_discards_unsaved_edits.
 
 (* ======================================================================== extension round *)
-From C18 Require Import GenNum GenStr ProofsGrammar ProofsDevices ProofsHistory2.
+From C18 Require Import GenNum GenStr ProofsGrammar ProofsDevices ProofsHistory2 ProofsImage.
 
 (* The constants and string literals typed into the model are the ones in the repository: GenNum.v
    is printed by a program compiled against the headers, GenStr.v is cut out of the source text of
@@ -519,3 +545,75 @@ Proof.
   split; [intros z; apply int_roundtrip; assumption|reflexivity].
 Qed.
 Print Assumptions c18_typed_values.
+
+(* ======================================================================== extension round 2 *)
+
+(* Universe ids with different numbers of digits (1, 10, 100: "uni_1_name" is a prefix-neighbour of
+   "uni_10_name" ...), torn down in either order, saved, loaded: each universe gets its own
+   settings back.  (Instances of c18_universe_history, checked by computation.) *)
+Example c18_universe_history_digit_counts :
+  let u1 := {| u_name := [97]; u_htp := true |} in
+  let u10 := {| u_name := [98; 61; 35]; u_htp := false |} in
+  let u100 := {| u_name := [99; 32; 99]; u_htp := true |} in
+  let f := load_bytes (save_bytes (teardown_all [(1, u1); (10, u10); (100, u100)] [])) in
+  let g := load_bytes (save_bytes (teardown_all [(100, u100); (10, u10); (1, u1)] [])) in
+  (restore_universe 1 f, restore_universe 10 f, restore_universe 100 f) = (u1, u10, u100) /\
+  (restore_universe 100 g, restore_universe 10 g, restore_universe 1 g) = (u100, u10, u1) /\
+  f = g.
+Proof. vm_compute. repeat split. Qed.
+
+(* The exact image of every line, hence of every entry that does not meet the side conditions.
+   A line a ++ "=" ++ b with no '=' in a is a comment if the trimmed a starts with '#', otherwise
+   the entry (trim a, trim b); a line without '=' is skipped.  Therefore:
+   - an entry whose key has no '=' (blanks at the ends of key or value, '#' anywhere) is read back
+     as (trim k, trim v), or dropped when the trimmed key starts with '#';
+   - an entry whose key contains '=' is split at the FIRST '=' of the key: the rest of the key,
+     the separator and the value become the value;
+   - an embedded newline in the value cuts the entry into several lines, each read on its own.
+   Together with c18_roundtrip_iff this characterises the grammar completely. *)
+Theorem c18_inadmissible_image :
+  (forall acc a b, ~ In EQC a ->
+     load_line acc (a ++ EQC :: b) = if hashb (trim a) then acc else mm_insert (trim a) (trim b) acc) /\
+  (forall acc l, ~ In EQC l -> load_line acc l = acc) /\
+  (forall k v, ~ In NL k -> ~ In NL v -> ~ In EQC k ->
+     load_bytes (save_bytes [(k, v)]) = if hashb (trim k) then [] else [(trim k, trim v)]) /\
+  (forall acc k1 k2 v, ~ In EQC k1 ->
+     load_line acc (raw_line (k1 ++ EQC :: k2, v)) =
+     if hashb (trim k1) then acc else mm_insert (trim k1) (trim (k2 ++ [SPC; EQC; SPC] ++ v)) acc) /\
+  (forall k v1 v2, ~ In NL k -> ~ In NL v1 ->
+     load_bytes (save_bytes [(k, v1 ++ NL :: v2)]) =
+     fold_left load_line (split_lines (v2 ++ [NL])) (load_line [] (raw_line (k, v1)))).
+Proof.
+  split; [exact load_line_image|]. split; [exact load_line_no_eq|]. split; [exact single_entry_image|].
+  split; [exact entry_eq_in_key_image|exact newline_in_value_image].
+Qed.
+Print Assumptions c18_inadmissible_image.
+
+(* trim itself: the unique blank-free-ended core of a string *)
+Theorem c18_trim_characterised : forall s,
+  (exists pre post, s = pre ++ trim s ++ post /\ all_blank pre /\ all_blank post) /\
+  no_edge_blank (trim s) /\
+  (forall pre core post, all_blank pre -> all_blank post -> no_edge_blank core -> s = pre ++ core ++ post -> trim s = core).
+Proof.
+  intros s. split; [apply trim_decompose|]. split; [apply trim_no_edge_blank|].
+  intros pre core post H1 H2 H3 ->. apply trim_unique; assumption.
+Qed.
+Print Assumptions c18_trim_characterised.
+
+(* A save whose close() fails (the stream is then in the failed state: the temporary is removed,
+   no rename) or whose rename() fails (warning, the temporary is removed) - both are checked by the
+   code with fix 02.  The complete scripts always run through, end with the temporary gone and the
+   settings file untouched; and after any number k of their calls, whenever those calls were
+   possible, the settings file is untouched and a new process loads the previous settings. *)
+Theorem c18_close_rename_failure_keeps_old : forall (chunks : list str) (d : fs),
+  (exists d', fs_run fs_step (script_close_failed chunks) d = Some d' /\ f_tmp d' = None /\ f_conf d' = f_conf d) /\
+  (exists d', fs_run fs_step (script_rename_failed chunks) d = Some d' /\ f_tmp d' = None /\ f_conf d' = f_conf d) /\
+  (forall (k : nat) d',
+     (fs_run fs_step (firstn k (script_close_failed chunks)) d = Some d' \/
+      fs_run fs_step (firstn k (script_rename_failed chunks)) d = Some d') ->
+     f_conf d' = f_conf d /\ restart d' = restart d).
+Proof.
+  intros chunks d. destruct (close_rename_failure_completes chunks d) as [H1 H2].
+  split; [exact H1|]. split; [exact H2|]. intros k d'. apply close_rename_failure_keeps_old.
+Qed.
+Print Assumptions c18_close_rename_failure_keeps_old.
